@@ -9,13 +9,15 @@ use reactive_graph::{
     computed::Memo,
     effect::{Effect, ImmediateEffect, RenderEffect},
     owner::{
-        on_cleanup, provide_context, use_context, verif_arena_len, LocalStorage, Owner, StoredValue,
-        SyncStorage,
+        on_cleanup, provide_context, use_context, verif_arena_len, ArenaItem, LocalStorage, Owner,
+        Storage, StoredValue, SyncStorage,
     },
     signal::{ArcTrigger, RwSignal},
-    traits::{Dispose, GetUntracked, GetValue, Notify, Track},
+    traits::{Dispose, GetUntracked, GetValue, IntoInner, IsDisposed, Notify, Track},
 };
-use std::cell::RefCell;
+use std::cell::{Cell, RefCell};
+use std::rc::Rc;
+use std::sync::Arc;
 use vsexp::{Lst, Num, Sexp};
 
 #[derive(Clone)]
@@ -31,6 +33,215 @@ enum EffH {
 enum Handle {
     Sig(RwSignal<i64>),
     Stored(StoredValue<i64>),
+    /// a raw `ArenaItem<T, S>`, type-erased
+    Item(Box<dyn ItemH>),
+}
+
+/// a value type stored in a raw `ArenaItem`: built from the handle number, and recognisable
+trait Val: Clone + std::fmt::Debug + 'static {
+    fn make(h: i64) -> Self;
+    /// is this (still) the value made for handle `h`?
+    fn is(&self, h: i64) -> bool;
+}
+fn f0() -> u32 {
+    0
+}
+fn f1() -> u32 {
+    1
+}
+fn f2() -> u32 {
+    2
+}
+fn f3() -> u32 {
+    3
+}
+fn f4() -> u32 {
+    4
+}
+const FNS: [fn() -> u32; 5] = [f0, f1, f2, f3, f4];
+const STRS: [&str; 7] = ["a", "bc", "def", "", "ghij", "k", "lm"];
+impl Val for u32 {
+    fn make(h: i64) -> Self {
+        h as u32
+    }
+    fn is(&self, h: i64) -> bool {
+        *self as i64 == h
+    }
+}
+impl Val for i64 {
+    fn make(h: i64) -> Self {
+        h
+    }
+    fn is(&self, h: i64) -> bool {
+        *self == h
+    }
+}
+impl Val for (u8, bool) {
+    fn make(h: i64) -> Self {
+        ((h % 251) as u8, h % 2 == 1)
+    }
+    fn is(&self, h: i64) -> bool {
+        *self == Self::make(h)
+    }
+}
+impl Val for fn() -> u32 {
+    fn make(h: i64) -> Self {
+        FNS[(h % 5) as usize]
+    }
+    fn is(&self, h: i64) -> bool {
+        self() as i64 == h % 5
+    }
+}
+impl Val for String {
+    fn make(h: i64) -> Self {
+        format!("value {h}")
+    }
+    fn is(&self, h: i64) -> bool {
+        *self == format!("value {h}")
+    }
+}
+impl Val for Arc<i64> {
+    fn make(h: i64) -> Self {
+        Arc::new(h)
+    }
+    fn is(&self, h: i64) -> bool {
+        **self == h
+    }
+}
+impl Val for Rc<i64> {
+    fn make(h: i64) -> Self {
+        Rc::new(h)
+    }
+    fn is(&self, h: i64) -> bool {
+        **self == h
+    }
+}
+impl Val for &'static str {
+    fn make(h: i64) -> Self {
+        STRS[(h % 7) as usize]
+    }
+    fn is(&self, h: i64) -> bool {
+        *self == STRS[(h % 7) as usize]
+    }
+}
+impl Val for () {
+    fn make(_: i64) -> Self {}
+    fn is(&self, _: i64) -> bool {
+        true
+    }
+}
+impl Val for [u8; 4] {
+    fn make(h: i64) -> Self {
+        (h as u32).to_le_bytes()
+    }
+    fn is(&self, h: i64) -> bool {
+        *self == (h as u32).to_le_bytes()
+    }
+}
+impl Val for Box<i64> {
+    fn make(h: i64) -> Self {
+        Box::new(h)
+    }
+    fn is(&self, h: i64) -> bool {
+        **self == h
+    }
+}
+impl Val for Cell<u32> {
+    fn make(h: i64) -> Self {
+        Cell::new(h as u32)
+    }
+    fn is(&self, h: i64) -> bool {
+        self.get() as i64 == h
+    }
+}
+impl Val for Option<char> {
+    fn make(h: i64) -> Self {
+        char::from_u32(0x100 + h as u32)
+    }
+    fn is(&self, h: i64) -> bool {
+        *self == char::from_u32(0x100 + h as u32)
+    }
+}
+
+trait ItemH {
+    /// `None` = does not resolve; `Some(h)` = resolves to its own value; `Some(-3)` = resolves to
+    /// something else (both access paths, `try_with_value` and `try_get_value`, are used)
+    fn read(&self) -> Option<i64>;
+    fn disposed(&self) -> bool;
+    fn dispose(&self);
+    /// `IntoInner::into_inner` = `Storage::take`: removes the arena entry
+    fn take(&self);
+}
+struct It<T: Val, S: Storage<T>> {
+    item: ArenaItem<T, S>,
+    h: i64,
+}
+impl<T: Val, S: Storage<T>> ItemH for It<T, S> {
+    fn read(&self) -> Option<i64> {
+        let h = self.h;
+        let a = self.item.try_with_value(|v| v.is(h));
+        let b = self.item.try_get_value().map(|v| v.is(h));
+        match (a, b) {
+            (None, None) => None,
+            (Some(true), Some(true)) => Some(h),
+            _ => Some(-3),
+        }
+    }
+    fn disposed(&self) -> bool {
+        self.item.is_disposed()
+    }
+    fn dispose(&self) {
+        self.item.dispose()
+    }
+    fn take(&self) {
+        let v = self.item.into_inner();
+        if let Some(v) = v {
+            assert!(v.is(self.h), "into_inner returns the handle's own value");
+        }
+    }
+}
+fn with_storage<T: Val, S: Storage<T> + std::fmt::Debug>(h: i64) -> (Box<dyn ItemH>, (u64, u64)) {
+    let item = ArenaItem::<T, S>::new_with_storage(T::make(h));
+    let k = node_id(&format!("{item:?}"));
+    (Box::new(It { item, h }), k)
+}
+pub const N_KINDS: i64 = 24;
+/// the (type, storage) pairs of raw arena items; 0..=11 SyncStorage, 12..=23 LocalStorage
+fn new_item(kind: i64, h: i64) -> (Box<dyn ItemH>, (u64, u64)) {
+    match kind.rem_euclid(N_KINDS) {
+        0 => {
+            let item = ArenaItem::new(h as u32);
+            let k = node_id(&format!("{item:?}"));
+            (Box::new(It { item, h }), k)
+        }
+        1 => with_storage::<(u8, bool), SyncStorage>(h),
+        2 => with_storage::<fn() -> u32, SyncStorage>(h),
+        3 => with_storage::<String, SyncStorage>(h),
+        4 => with_storage::<Arc<i64>, SyncStorage>(h),
+        5 => with_storage::<i64, SyncStorage>(h),
+        6 => with_storage::<&'static str, SyncStorage>(h),
+        7 => with_storage::<(), SyncStorage>(h),
+        8 => with_storage::<[u8; 4], SyncStorage>(h),
+        9 => with_storage::<Box<i64>, SyncStorage>(h),
+        10 => with_storage::<Option<char>, SyncStorage>(h),
+        11 => with_storage::<u32, SyncStorage>(h),
+        12 => {
+            let item = ArenaItem::new_local(h as u32);
+            let k = node_id(&format!("{item:?}"));
+            (Box::new(It { item, h }), k)
+        }
+        13 => with_storage::<(u8, bool), LocalStorage>(h),
+        14 => with_storage::<fn() -> u32, LocalStorage>(h),
+        15 => with_storage::<String, LocalStorage>(h),
+        16 => with_storage::<Rc<i64>, LocalStorage>(h),
+        17 => with_storage::<i64, LocalStorage>(h),
+        18 => with_storage::<&'static str, LocalStorage>(h),
+        19 => with_storage::<(), LocalStorage>(h),
+        20 => with_storage::<Cell<u32>, LocalStorage>(h),
+        21 => with_storage::<Box<i64>, LocalStorage>(h),
+        22 => with_storage::<Arc<i64>, LocalStorage>(h),
+        _ => with_storage::<Option<char>, LocalStorage>(h),
+    }
 }
 
 #[derive(Default)]
@@ -106,6 +317,14 @@ fn exec_stmt(st: &Sexp) {
             let k = node_id(&format!("{s:?}"));
             ctx(|c| {
                 c.handles.push(Handle::Stored(s));
+                c.keys.push(k)
+            });
+        }
+        12 => {
+            let h = ctx(|c| c.handles.len()) as i64;
+            let (it, k) = new_item(st.at(1).num(), h);
+            ctx(|c| {
+                c.handles.push(Handle::Item(it));
                 c.keys.push(k)
             });
         }
@@ -258,11 +477,18 @@ fn statuses() -> Sexp {
     let n = ctx(|c| c.handles.len());
     let mut out = vec![];
     for i in 0..n {
-        let v = ctx(|c| match &c.handles[i] {
-            Handle::Sig(s) => s.try_get_untracked(),
-            Handle::Stored(s) => s.try_get_value(),
+        let (v, d) = ctx(|c| match &c.handles[i] {
+            Handle::Sig(s) => (s.try_get_untracked(), s.is_disposed()),
+            Handle::Stored(s) => (s.try_get_value(), s.is_disposed()),
+            Handle::Item(s) => (s.read(), s.disposed()),
         });
-        out.push(Num(v.unwrap_or(-1)));
+        // the value it resolves to, -1 = disposed; -4 / -5 = `is_disposed()` contradicts the access
+        out.push(Num(match (v, d) {
+            (Some(x), false) => x,
+            (None, true) => -1,
+            (Some(_), true) => -4,
+            (None, false) => -5,
+        }));
     }
     Lst(out)
 }
@@ -327,12 +553,31 @@ fn step(op: &Sexp) {
                 });
             }
         }
-        19 => {
+        28 => {
+            if let Some((o, _)) = user(a) {
+                let n = op.at(2).num();
+                let kind = op.at(3).num();
+                o.with(|| {
+                    for _ in 0..n {
+                        exec_stmt(&Lst(vec![Num(12), Num(kind)]));
+                    }
+                });
+            }
+        }
+        19 | 29 => {
+            let take = op.at(0).num() == 29;
             let n = ctx(|c| c.handles.len());
             if a >= 0 && (a as usize) < n {
                 ctx(|c| match &c.handles[a as usize] {
                     Handle::Sig(s) => s.dispose(),
                     Handle::Stored(s) => s.dispose(),
+                    Handle::Item(s) => {
+                        if take {
+                            s.take()
+                        } else {
+                            s.dispose()
+                        }
+                    }
                 });
             }
         }
